@@ -1,11 +1,13 @@
 import SodiumModel.Driver.Common
 import SodiumModel.Driver.C14
 import SodiumModel.Driver.C16
+import SodiumModel.Driver.C15
 open Sodium.Driver
 
 def handlers : List (String → List String → Option String) := [
   Sodium.Driver.C14.handle,
-  Sodium.Driver.C16.handle
+  Sodium.Driver.C16.handle,
+  Sodium.Driver.C15.handle
 ]
 
 def dispatch (line : String) : String :=
